@@ -64,10 +64,11 @@ func (v *Vue) evalInclude(ctx VueContext, node *html.Node, vars map[string]any, 
 
 	childCtx := ctx.WithTemplate(name)
 
-	// A leading <template> that carries v-if or v-for is an ordinary conditional or
-	// loop, not the component's root wrapper: it is evaluated like anywhere else.
+	// A leading <template> that carries v-if, v-else-if, v-else or v-for is an ordinary
+	// conditional or loop, not the component's root wrapper: it is evaluated like anywhere else.
 	if len(compDom) > 0 && compDom[0].Type == html.ElementNode && compDom[0].Data == "template" &&
-		(helpers.HasAttr(compDom[0], "v-if") || helpers.HasAttr(compDom[0], "v-for")) {
+		(helpers.HasAttr(compDom[0], "v-if") || helpers.HasAttr(compDom[0], "v-for") ||
+			helpers.HasAttr(compDom[0], "v-else-if") || helpers.HasAttr(compDom[0], "v-else")) {
 		return v.evaluate(childCtx, compDom, depth+1)
 	}
 
